@@ -27,6 +27,9 @@ Lex(d, t) == CASE d = "absent" -> "none" [] d = "None" -> "cq_none"
                [] d = "str" -> (IF NeedsQuoting(t) THEN "dq_word" ELSE "bare_word")
                [] d = "str_empty" -> "nothing"
                [] d = "code" -> "cq_code"
+               [] d = "str_odd" -> (IF NeedsQuoting(t) THEN "dq_phrase" ELSE "bare_phrase")
+               [] d = "str_dot" -> (IF NeedsQuoting(t) THEN "dq_dotted" ELSE "bare_dotted")
+               [] d = "float_exp" -> "exp_text" [] d = "int_big" -> "big_decimal"
 \* the ideal reading of a lexical class, given the type that is known at that point ("absent" if none)
 DefFromLex(lex, t) ==
   CASE lex = "none" -> "absent" [] lex = "cq_none" -> "None"
@@ -35,6 +38,7 @@ DefFromLex(lex, t) ==
     [] lex = "float_text" -> "float_pos" [] lex = "neg_float_text" -> "float_neg"
     [] lex = "True" -> "bool_T" [] lex = "False" -> "bool_F"
     [] lex \in {"dq_word", "bare_word"} -> "str" [] lex = "nothing" -> "str_empty" [] lex = "cq_code" -> "code"
+    [] lex \in {"dq_phrase", "bare_phrase"} -> "str_odd" [] lex \in {"dq_dotted", "bare_dotted"} -> "str_dot" [] lex = "exp_text" -> "float_exp" [] lex = "big_decimal" -> "int_big"
 
 L(k, n, typ, doc, lex) == [k |-> k, n |-> n, typ |-> typ, doc |-> doc, lex |-> lex]
 Blank == L("blank", 0, "absent", "absent", "none")
